@@ -154,15 +154,6 @@ Proof.
   destruct (find_site L leqb l m) as [[norb nspin]|]; reflexivity.
 Qed.
 
-(** both spin sizes AND both orbital sizes of the two sites are compared: the repaired configuration of PV.Lattice *)
-Lemma gen_addSzSz4_is_model : forall (P : preset_table L V) (m : site_map L) (l1 l2 : L) (J : V),
-  gen_addSzSz4 L leqb V vo P m l1 l2 J = addSzSz L leqb V vo repaired m l1 l2 J.
-Proof.
-  intros. unfold gen_addSzSz4, addSzSz, site_absent, wsite.
-  destruct (find_site L leqb l1 m) as [[o1 s1]|]; [|reflexivity].
-  destruct (find_site L leqb l2 m) as [[o2 s2]|]; reflexivity.
-Qed.
-
 (** ** the presets that call Lattice::addTerm or another preset: the callee is read from the table *)
 
 Definition addTerm_ok (P : preset_table L V) : Prop :=
@@ -184,6 +175,23 @@ Proof. intros f g H k. induction k as [|k IH]; intro i; cbn [wfor_from]; [reflex
 
 Lemma wfor_ext : forall (n : nat) (f g : nat -> W), (forall i, f i = g i) -> wfor L V n f = wfor L V n g.
 Proof. intros. unfold wfor. apply wfor_from_ext. assumption. Qed.
+
+(** both spin sizes AND both orbital sizes of the two sites are compared: the repaired configuration of PV.Lattice.
+    The source's `if (Label1 != Label2) {A} else {B}` is read as `if (Label1 == Label2) {B} else {A}` (translator/cstmt.py: an
+    if / else with a negated condition is oriented positively, so that inverting the branches in the source changes nothing);
+    PV.Lattice keeps the order of the source text, hence the case analysis on [leqb l1 l2] inside the loop. *)
+Lemma gen_addSzSz4_is_model : forall (P : preset_table L V) (m : site_map L) (l1 l2 : L) (J : V),
+  gen_addSzSz4 L leqb V vo P m l1 l2 J = addSzSz L leqb V vo repaired m l1 l2 J.
+Proof.
+  intros. unfold gen_addSzSz4, addSzSz, site_absent, wsite.
+  destruct (find_site L leqb l1 m) as [[o1 s1]|]; [|reflexivity].
+  destruct (find_site L leqb l2 m) as [[o2 s2]|]; [|reflexivity].
+  cbn [fst snd]. replace (cmp_spins repaired (o1, s1) (o2, s2)) with s2 by reflexivity.
+  repeat match goal with
+         | |- (if ?c then _ else _) = (if ?c then _ else _) => destruct c; [reflexivity|]
+         end.
+  apply wfor_ext. intro i. destruct (leqb l1 l2); reflexivity.
+Qed.
 
 Lemma gen_addCoulombP5_is_model : forall (P : preset_table L V), coulombP6_ok P ->
   forall (m : site_map L) (l : L) (U J lev : V),
